@@ -5,6 +5,8 @@
 import Lean.Data.Json
 import Protobom.Model.Graph
 import Protobom.Model.Diff
+import Protobom.Model.Spdx
+import Protobom.Model.Cdx
 
 namespace Protobom.Driver
 open Lean Protobom
@@ -138,6 +140,187 @@ def jOptNL : Option NodeList → Json
 
 def jNodes (l : List Node) : Json := Json.arr (l.map jNode).toArray
 
+/-! ### documents -/
+
+def optStrJ (j : Json) (k : String) : Option String :=
+  match j.getObjVal? k with
+  | .ok (Json.str s) => some s
+  | _ => none
+
+def toolOf (j : Json) : Tool := { name := optStr j "n", version := optStr j "v", vendor := optStr j "vendor" }
+
+def docTypeOf (j : Json) : DocType :=
+  { typ := (match j.getObjVal? "t" with | .ok v => v.getInt?.toOption | _ => none)
+    name := optStrJ j "n", desc := optStrJ j "d" }
+
+def metaOf (j : Json) : R Metadata := do
+  let tools := match j.getObjVal? "tools" with
+    | .ok (Json.arr a) => a.toList.map toolOf
+    | _ => []
+  let authors ← match j.getObjVal? "authors" with
+    | .ok (Json.arr a) => a.toList.mapM personOf
+    | _ => pure []
+  let types := match j.getObjVal? "types" with
+    | .ok (Json.arr a) => a.toList.map docTypeOf
+    | _ => []
+  let date ← match j.getObjVal? "date" with
+    | .ok v => do
+        let l ← intList v
+        match l with
+        | [s, n] => pure (some (s, n))
+        | _ => throw "date"
+    | _ => pure none
+  pure { id := optStr j "id", version := optStr j "version", name := optStr j "name", comment := optStr j "comment"
+         date := date, tools := tools, authors := authors, docTypes := types }
+
+def docOf (j : Json) : R Document := do
+  let md ← match j.getObjVal? "meta" with
+    | .ok Json.null => pure none
+    | .ok v => do pure (some (← metaOf v))
+    | _ => pure none
+  let nl ← match j.getObjVal? "nl" with
+    | .ok Json.null => pure none
+    | .ok v => do pure (some (← nlOf v))
+    | _ => pure none
+  pure { metadata := md, nodeList := nl }
+
+def jTool (t : Tool) : Json :=
+  Json.mkObj ([("n", Json.str t.name)] ++ (if t.version = "" then [] else [("v", Json.str t.version)])
+    ++ (if t.vendor = "" then [] else [("vendor", Json.str t.vendor)]))
+
+def jDocType (t : DocType) : Json :=
+  Json.mkObj ((match t.typ with | some v => [("t", toJson v)] | none => [])
+    ++ (match t.name with | some v => [("n", Json.str v)] | none => [])
+    ++ (match t.desc with | some v => [("d", Json.str v)] | none => []))
+
+def jMeta (m : Metadata) : Json :=
+  Json.mkObj [("id", Json.str m.id), ("version", Json.str m.version), ("name", Json.str m.name),
+              ("comment", Json.str m.comment),
+              ("tools", Json.arr (m.tools.map jTool).toArray),
+              ("authors", Json.arr (m.authors.map jPerson).toArray),
+              ("types", Json.arr (m.docTypes.map jDocType).toArray)]
+
+def jDoc (d : Document) : Json :=
+  Json.mkObj [("meta", match d.metadata with | some m => jMeta m | none => Json.null),
+              ("nl", match d.nodeList with | some nl => jNL nl | none => Json.null)]
+
+def jOutcome {α} (f : α → Json) : Outcome α → Json
+  | .ok a => f a
+  | .err => Json.str "err"
+  | .panic s => Json.str ("panic: " ++ s)
+
+def jChecksum (c : Spdx.Checksum) : Json := Json.arr #[Json.str c.algo, Json.str c.value]
+def jSpdxRef (r : Spdx.ExtRef) : Json := Json.arr #[Json.str r.category, Json.str r.refType, Json.str r.locator, Json.str r.comment]
+def jAgent : Option Spdx.Agent → Json
+  | some a => Json.arr #[Json.str a.typ, Json.str a.name]
+  | none => Json.null
+def jOptInt : Option Int → Json
+  | some i => toJson i
+  | none => Json.null
+
+def jSpdxPackage (p : Spdx.Package) : Json :=
+  Json.mkObj [("id", Json.str p.id), ("name", Json.str p.name), ("version", Json.str p.version),
+    ("fileName", Json.str p.fileName), ("download", Json.str p.download), ("home", Json.str p.home),
+    ("sourceInfo", Json.str p.sourceInfo), ("licenseConcluded", Json.str p.licenseConcluded),
+    ("licenseComments", Json.str p.licenseComments), ("copyright", Json.str p.copyright),
+    ("summary", Json.str p.summary), ("description", Json.str p.description), ("comment", Json.str p.comment),
+    ("purpose", Json.str p.purpose), ("release", jOptInt p.release), ("built", jOptInt p.built),
+    ("validUntil", jOptInt p.validUntil), ("checksums", Json.arr (p.checksums.map jChecksum).toArray),
+    ("extRefs", Json.arr (p.extRefs.map jSpdxRef).toArray), ("attribution", jStrs p.attribution),
+    ("supplier", jAgent p.supplier), ("originator", jAgent p.originator)]
+
+def jSpdxFile (f : Spdx.File) : Json :=
+  Json.mkObj [("id", Json.str f.id), ("name", Json.str f.name), ("fileTypes", jStrs f.fileTypes),
+    ("checksums", Json.arr (f.checksums.map jChecksum).toArray), ("licenseConcluded", Json.str f.licenseConcluded),
+    ("licenseComments", Json.str f.licenseComments), ("copyright", Json.str f.copyright),
+    ("comment", Json.str f.comment), ("attribution", jStrs f.attribution)]
+
+def jSpdxDoc (d : Spdx.Doc) : Json :=
+  Json.mkObj [("name", Json.str d.name), ("comment", Json.str d.comment),
+    ("packages", Json.arr (d.packages.map jSpdxPackage).toArray),
+    ("files", Json.arr (d.files.map jSpdxFile).toArray),
+    ("rels", Json.arr (d.rels.map (fun r => Json.arr #[Json.str r.a, Json.str r.rel, Json.str r.b])).toArray)]
+
+/-! ### CycloneDX native structures -/
+
+def jHashL (l : List Cdx.Hash) : Json := Json.arr (l.map (fun h => Json.arr #[Json.str h.algo, Json.str h.value])).toArray
+
+def jCRef (r : Cdx.CRef) : Json :=
+  Json.mkObj [("u", Json.str r.url), ("c", Json.str r.comment), ("t", Json.str r.typ), ("h", jHashL r.hashes)]
+
+def jLic (l : Cdx.LicChoice) : Json :=
+  Json.mkObj [("e", Json.str l.expression), ("id", match l.license with | some i => Json.str i | none => Json.null)]
+
+def jContact (c : Cdx.Contact) : Json := Json.arr #[Json.str c.name, Json.str c.email, Json.str c.phone]
+
+partial def jComp : Cdx.Component → Json
+  | .mk r t n v d c p e l h x s ks =>
+    Json.mkObj [("ref", Json.str r), ("type", Json.str t), ("name", Json.str n), ("version", Json.str v),
+      ("description", Json.str d), ("copyright", Json.str c), ("purl", Json.str p), ("cpe", Json.str e),
+      ("licenses", match l with | some ls => Json.arr (ls.map jLic).toArray | none => Json.null),
+      ("hashes", jHashL h), ("refs", Json.arr (x.map jCRef).toArray),
+      ("supplier", match s with
+        | some (nm, cs) => Json.arr #[Json.str nm, Json.arr (cs.map jContact).toArray]
+        | none => Json.null),
+      ("components", Json.arr (ks.map jComp).toArray)]
+
+def jBom (b : Cdx.Bom) : Json :=
+  Json.mkObj [("serial", Json.str b.serial), ("version", toJson b.version),
+    ("meta", match b.metaComponent with | some c => jComp c | none => Json.null),
+    ("lifecycles", Json.arr (b.lifecycles.map (fun l => Json.arr #[Json.str l.phase, Json.str l.name, Json.str l.description])).toArray),
+    ("authors", Json.arr (b.authors.map jContact).toArray),
+    ("tools", Json.arr (b.tools.map (fun t => Json.arr #[Json.str t.1, Json.str t.2])).toArray),
+    ("components", Json.arr (b.components.map jComp).toArray),
+    ("deps", Json.arr (b.deps.map (fun d => Json.arr #[Json.str d.1, jStrs d.2])).toArray)]
+
+def hashLOf (j : Json) : R (List Cdx.Hash) := do
+  let a ← j.getArr?
+  a.toList.mapM fun p => do
+    let q ← p.getArr?
+    if q.size ≠ 2 then throw "hash" else pure { algo := (← q[0]!.getStr?), value := (← q[1]!.getStr?) }
+
+partial def compOf (j : Json) : R Cdx.Component := do
+  let lic ← match j.getObjVal? "licenses" with
+    | .ok (Json.arr a) => do
+        let ls ← a.toList.mapM fun l => do
+          pure ({ expression := optStr l "e", license := optStrJ l "id" } : Cdx.LicChoice)
+        pure (some ls)
+    | _ => pure none
+  let hashes ← match j.getObjVal? "hashes" with
+    | .ok v => hashLOf v
+    | _ => pure []
+  let refs ← match j.getObjVal? "refs" with
+    | .ok (Json.arr a) => a.toList.mapM fun r => do
+        let h ← match r.getObjVal? "h" with
+          | .ok v => hashLOf v
+          | _ => pure []
+        pure ({ url := optStr r "u", comment := optStr r "c", typ := optStr r "t", hashes := h } : Cdx.CRef)
+    | _ => pure []
+  let kids ← match j.getObjVal? "components" with
+    | .ok (Json.arr a) => a.toList.mapM compOf
+    | _ => pure []
+  pure (.mk (optStr j "ref") (optStr j "type") (optStr j "name") (optStr j "version") (optStr j "description")
+    (optStr j "copyright") (optStr j "purl") (optStr j "cpe") lic hashes refs none kids)
+
+def bomOf (j : Json) : R Cdx.Bom := do
+  let mc ← match j.getObjVal? "meta" with
+    | .ok Json.null => pure none
+    | .ok v => do pure (some (← compOf v))
+    | _ => pure none
+  let comps ← match j.getObjVal? "components" with
+    | .ok (Json.arr a) => a.toList.mapM compOf
+    | _ => pure []
+  let lcs ← match j.getObjVal? "lifecycles" with
+    | .ok (Json.arr a) => a.toList.mapM fun l => do
+        let q ← l.getArr?
+        if q.size ≠ 3 then throw "lifecycle" else
+        pure ({ phase := (← q[0]!.getStr?), name := (← q[1]!.getStr?), description := (← q[2]!.getStr?) } : Cdx.Lifecycle)
+    | _ => pure []
+  let ver ← match j.getObjVal? "version" with
+    | .ok v => v.getInt?
+    | _ => pure 1
+  pure { serial := optStr j "serial", version := ver, metaComponent := mc, lifecycles := lcs, components := comps }
+
 /-! ### dispatcher -/
 
 def getS (j : Json) (k : String) : R String := do (← j.getObjVal? k).getStr?
@@ -202,6 +385,20 @@ def run (j : Json) : R Json := do
       let states := (prog.foldl (fun (st : List NodeList × List (List NodeList)) i =>
           let r := exec st.1 i; (r, st.2 ++ [r])) (regs, [])).2
       pure (Json.arr (states.map (fun rs => Json.arr (rs.map jNL).toArray)).toArray)
+  | "spdxRT" => do pure (jOutcome jDoc (Spdx.rtSPDX (← docOf (← j.getObjVal? "doc"))))
+  | "spdxRT2" => do
+      -- two passes: the second must change nothing further
+      let d ← docOf (← j.getObjVal? "doc")
+      pure (jOutcome jDoc ((Spdx.rtSPDX d).bind Spdx.rtSPDX))
+  | "spdxSer" => do pure (jOutcome jSpdxDoc (Spdx.serSPDX (← docOf (← j.getObjVal? "doc"))))
+  | "cdxRT" => do
+      pure (jOutcome jDoc (Cdx.rtCDX (← getN j "v") (← docOf (← j.getObjVal? "doc"))))
+  | "cdxRT2" => do
+      let v ← getN j "v"
+      pure (jOutcome jDoc ((Cdx.rtCDX v (← docOf (← j.getObjVal? "doc"))).bind (Cdx.rtCDX v)))
+  | "cdxSer" => do
+      pure (jOutcome jBom ((Cdx.serCDX (← docOf (← j.getObjVal? "doc"))).map (Cdx.codecCDX (← getN j "v"))))
+  | "cdxUnser" => do pure (jDoc (Cdx.unserCDX (← bomOf (← j.getObjVal? "bom"))))
   | "flatNode" => do pure (Json.str (← nodeOf (← j.getObjVal? "n")).flat)
   | "flatEdge" => do pure (Json.str (← edgeOf (← j.getObjVal? "e")).flat)
   | "flatPerson" => do pure (Json.str (← personOf (← j.getObjVal? "p")).flat)
